@@ -69,7 +69,7 @@ def cached_cases(ctx):
     for f in ("harness/hier.py", "harness/gen.py", "harness/export.py", "harness/common.py"):
         h.update(open(os.path.join(common.VERIF, f), "rb").read())
     h.update(open(common.DRIVER, "rb").read())
-    h.update(f"{ctx['tier']}/{ctx['seed']}".encode())
+    h.update(f"{ctx['tier']}/{ctx['seed']}/{common.boost()}".encode())
     if os.environ.get("VERIF_NO_CACHE"):
         return hier.run_graphs(gen.graph_inputs(ctx["tier"], ctx["seed"]) + hier.derived_inputs(ctx["tier"], ctx["seed"]))
     cdir = os.path.join(common.VERIF, ".cache")
